@@ -268,6 +268,9 @@ def single_behaviours() -> List[Dict[str, Any]]:
         out.append({"status": 200, "ctype": "json", "body": "response", "session": s})
         out.append({"status": 202, "ctype": None, "body": "empty", "session": s})
     out.append({"status": 307, "ctype": None, "body": "empty", "redirect": True})
+    for st_ in (307, 308):      # (301/302/303 make the HTTP client turn the POST into a GET: not an answer to the POST)
+        for loc_ in ("path", "relative"):
+            out.append({"status": st_, "ctype": None, "body": "empty", "redirect": True, "location": loc_})
     return out
 
 
@@ -456,7 +459,8 @@ def exec_case(ctx, seq: List[Dict[str, Any]]) -> None:
             headers["mcp-session-id"] = beh["session"]
         if beh.get("redirect"):
             state["pending_redirect"] = beh
-            headers["location"] = URL + "/moved"
+            # absolute, absolute-path and relative references are all legitimate Location values
+            headers["location"] = {"absolute": URL + "/moved", "path": "/mcp/moved/", "relative": "moved/"}[beh.get("location", "absolute")]
             return httpx.Response(beh["status"], headers=headers)
         raw, _ = body_for(beh, rec["body"])
         if beh.get("delay"):
